@@ -19,6 +19,7 @@ func init() {
 			"NOT decided: behaviour on arbitrary malformed strings.",
 		Assumptions: []string{"strconv.Atoi and strings.Split semantics"},
 		Rules: []RuleDef{
+			{ID: "C18.R11", Text: "below 5.5.0 the serial close asks exactly the assigned vBuckets: the ownership test and the close loop agree with the assigned chunk — In ⇔ Start ≤ vbID ≤ End, streams closed for Start..End inclusive (same rule as C09.R4)", Run: func(c *Ctx, id string) { c04r2(c, id); closeAllRange(c, id) }},
 			{ID: "C18.R1", Text: "Higher = lexicographic >, Equal = component-wise =, Lower = lexicographic < on (Major, Minor, Patch, Build) — 81 relation vectors, exhaustive for all ints", Run: c18r1},
 			{ID: "C18.R2", Text: "gates: expiry opcode ⇔ ≥ 6.5.0.0; change streams ⇔ magma ∧ ≥ 7.2.0.0; serial close ⇔ < 5.5.0.0; constants are those tuples", Run: c18r2},
 			{ID: "C18.R3", Text: "parser table: Major ← Atoi(dot[0]), Minor ← Atoi(dot[1]), Patch ← Atoi(dash(dot[2])[0]), Build ← Atoi(dash(dash(dot[2])[1])[0]); each under exactly its existence conditions; errors returned except the build's", Run: c18r3},
@@ -343,6 +344,14 @@ func c18r4(c *Ctx, id string) {
 	c.need(parser != nil, id, "couchbase.nodeVersionFromString")
 	for _, fn := range impls {
 		c.see(fn)
+		// an exported method that only hands the call to an unexported one of the same type (threading a context) and
+		// returns that one's results as they are: the unexported one is what is judged
+		for d := 0; d < 2; d++ {
+			if g := delegateOf(fn); g != nil {
+				fn = g
+				c.see(fn)
+			}
+		}
 		n := 0
 		allInstrs(fn, func(in ssa.Instruction) {
 			r, ok := in.(*ssa.Return)
@@ -458,4 +467,46 @@ func singleStoreIn(b *ssa.BasicBlock, addr ssa.Value) ssa.Value {
 		}
 	}
 	return v
+}
+
+// delegateOf: fn's whole body is `return r.g(…)`: one call of a method on its own receiver, the only return handing on
+// that call's results in order, nothing else but building the arguments. The method g.
+func delegateOf(fn *ssa.Function) *ssa.Function {
+	if fn.Signature.Recv() == nil || len(fn.Blocks) != 1 {
+		return nil
+	}
+	var call *ssa.Call
+	var ret *ssa.Return
+	for _, in := range fn.Blocks[0].Instrs {
+		switch x := in.(type) {
+		case *ssa.Call:
+			g := x.Common().StaticCallee()
+			if g != nil && g.Signature.Recv() != nil && len(x.Common().Args) > 0 && x.Common().Args[0] == ssa.Value(fn.Params[0]) && g.Blocks != nil {
+				if call != nil {
+					return nil
+				}
+				call = x
+			} else if g == nil || !strings.HasPrefix(pkgPathOf(g), "context") {
+				return nil
+			}
+		case *ssa.Return:
+			ret = x
+		case *ssa.Extract, *ssa.DebugRef:
+		default:
+			return nil
+		}
+	}
+	if call == nil || ret == nil {
+		return nil
+	}
+	for i, r := range ret.Results {
+		if len(ret.Results) == 1 {
+			if r != ssa.Value(call) {
+				return nil
+			}
+		} else if ex, ok := r.(*ssa.Extract); !ok || ex.Tuple != ssa.Value(call) || ex.Index != i {
+			return nil
+		}
+	}
+	return call.Common().StaticCallee()
 }
